@@ -502,6 +502,24 @@ def rule_fit_decided_on_fresh_frame(res, rid, m):
         cl = called_names(v)
         oktest = m.bytesLeft in rd and PKT + "::getPayloadLength" in cl and any(
             x.get("k") == "sizeof" and x.get("ofrec") == MH for x in walk(v))
+        # exact boundary: segmented iff free < sizeof(MessageHeader) + payload length (a packet that fits exactly is not split)
+        def syms(z):
+            if z.get("k") == "call" and callee_name(z) == PKT + "::getPayloadLength":
+                return "len"
+            if z.get("k") == "member" and z.get("field") == m.bytesLeft:
+                return "free"
+            return None
+        from rules.decoder_rules import _linear
+        exact = False
+        for t in walk(v):
+            if t.get("k") == "bin" and t.get("op") in ("<", ">"):
+                lo, hi = (t["l"], t["r"]) if t["op"] == "<" else (t["r"], t["l"])
+                fl, fh = _linear(f, lo, syms), _linear(f, hi, syms)
+                if fl is not None and fh is not None and fl.get("free") == 1 and set(fl) <= {"free", 1} and fl.get(1, 0) == 0 and \
+                        fh.get("len") == 1 and fh.get(1, 0) == m.fb.record(MH)["size"] and set(fh) <= {"len", 1}:
+                    exact = True
+        res.check(exact, rid, "fit:exact-boundary", r.get("loc"), "does-not-fit test is exactly `free < %d + payload length`" % m.fb.record(MH)["size"],
+                  "the fit test `%s` is not exactly `free bytes < sizeof(MessageHeader) + payload length`: packets at the fit boundary are split or overflow" % canon(v)[:160])
         res.check(okpos and oktest, rid, "fit:positive-path", r.get("loc"),
                   "a packet is marked segmented only after the fit test was re-evaluated against a freshly opened frame",
                   "the fit checker can answer 'segmented' from a test against a partially filled frame (opened before test: %s; test reads "
@@ -642,6 +660,17 @@ def rule_frames_zeroed_trimmed(res, rid, m):
                       "frame trimmed to max(used, min) with explicit zero fill",
                       "frame resized by %s: expected resize(max(used bytes, minimum), 0)" % canon(c))
             if used is not None:
+                def syms(z):
+                    if z.get("k") == "call" and (z.get("callee") or {}).get("nm") == "size" and m.frames in depends(f, z.get("obj", {}))[0]:
+                        return "size"
+                    if z.get("k") == "member" and z.get("field") == m.bytesLeft:
+                        return "free"
+                    return None
+                from rules.decoder_rules import _linear
+                form = _linear(f, strip_all_casts(facts.expand(f, used)), syms)
+                res.check(form is not None and form.get("size") == 1 and form.get("free") == -1 and form.get(1, 0) == 0 and set(form) <= {"size", "free", 1}, rid,
+                          "frame:trim-used:%s" % f.name.split("::")[-1], c.get("loc"), "used bytes = frame size() - free bytes",
+                          "the used-byte count of the trim is `%s`, not frame size() - free bytes" % canon(used))
                 nar = narrowings(f, used)
                 res.check(not nar, rid, "frame:trim-width:%s" % f.name.split("::")[-1], c.get("loc"), "used-byte count is computed in size_t",
                           "the used-byte count of a frame is converted to %s before the trim: frames using 2^%d bytes or more are cut short" %
